@@ -27,6 +27,9 @@ def corpus():
     # lengths around every power of two a fixed buffer could have
     for n in (63, 64, 65, 127, 128, 129, 255, 256, 257, 1023, 1024, 1025, 4095, 4096, 4097):
         out += [b"a" * n, b"a" * (n - 1) + b"-", b"-" * n, b"a" * (n - 2) + "\u20ac".encode()[:3], b"9" + b"b" * (n - 1), b"a" * (n - 1) + b"\xff"]
+    # strings with equal 64-bit FNV-1a sums, each pair in both orders (a memo keyed by the hash alone returns the first one's result)
+    import gen_line as GL
+    out += GL.FNV64_TWINS + GL.FNV64_TWINS[::-1] + GL.FNV64_TWIN_NAMES + GL.FNV64_TWIN_NAMES[::-1] + [GL.FNV64_TWINS[0] + b".x", GL.FNV64_TWINS[1] + b".x"]
     out += [b"a\xffb-", b"a\xffbcd", b"a\xef\xbf\xbdb-", b"", b"9", b"--", b"a--b", b"-", b"\xf0\x9f\x98", b"\xed\xa0\x80",
            b"\xc0\x80", b"\xe0\x80\x80", b"\xf4\x90\x80\x80", b"a\x00b", b"_", b"A-Z_09", b"\xc3", b"x\xc3\xa9-\xc3-"]
     return out
